@@ -2,6 +2,7 @@
 //! `rx demo <Dxx>` exits 1 (and prints the failing input) when the defect manifests, 0 when the code behaves as the property demands.
 //! It is not a verifier; it exists so a VIOLATION / finding can carry a failing input replayed against the real code.
 mod bounded;
+mod bounded2;
 use ommx::v1::{self, decision_variable::Kind, Constraint, DecisionVariable, Equality, Function, Instance, Linear};
 use std::collections::HashMap;
 
